@@ -37,6 +37,7 @@ type rsub struct {
 	filter  string
 	qos     int
 	resumed bool // installed from the stored session when the connection was accepted
+	kept    bool // a later SUBSCRIBE of the connection named the filter again in an entry that was refused
 }
 
 type rconn struct {
@@ -248,6 +249,10 @@ func (rb *refBroker) deliver(ex *expectation, m rpub, prop string) {
 				if sb.resumed {
 					// a subscription of a resumed session: that it is active again, with its granted QoS, is C10
 					pr = "C10: (" + prop + ")"
+				}
+				if sb.kept {
+					// a refused entry of a SUBSCRIBE has no effect: the subscription granted before still applies (C07)
+					pr = "C07: (" + prop + ")"
 				}
 				ex.conn[id] = append(ex.conn[id], want{descPub(m.topic, m.payload, min(m.qos, sb.qos), false), pr})
 			}
@@ -500,11 +505,15 @@ func (rb *refBroker) feed(ex *expectation, id int, b []byte) {
 			for i, f := range fs {
 				if !rb.valid(f) || qs[i] > 2 {
 					codes = append(codes, 0x80)
+					if old, held := c.subs[rb.key(f)]; held && rb.valid(f) {
+						old.kept = true
+						c.subs[rb.key(f)] = old
+					}
 					continue
 				}
 				g := min(qs[i], 2)
 				codes = append(codes, byte(g))
-				c.subs[rb.key(f)] = rsub{f, g, false}
+				c.subs[rb.key(f)] = rsub{filter: f, qos: g}
 				c.topics[f] = g
 				rets = append(rets, rb.retainedFor(f, g)...)
 			}
@@ -666,7 +675,7 @@ func (rb *refBroker) check(ev hx.Group, obs map[int][][]byte, calls []call) []fa
 					}
 					sort.Strings(fs)
 					for _, f := range fs {
-						c.subs[rb.key(f)] = rsub{f, old[f], true}
+						c.subs[rb.key(f)] = rsub{filter: f, qos: old[f], resumed: true}
 						c.topics[f] = old[f]
 					}
 					if q, ok := rb.sessQ2[c.cid]; ok {
@@ -708,7 +717,7 @@ func (rb *refBroker) check(ev hx.Group, obs map[int][][]byte, calls []call) []fa
 			if rb.inproc[s] == nil {
 				rb.inproc[s] = map[string]rsub{}
 			}
-			rb.inproc[s][rb.key(f)] = rsub{f, q, false}
+			rb.inproc[s][rb.key(f)] = rsub{filter: f, qos: q}
 			for _, r := range rb.retainedFor(f, q) {
 				ex.calls = append(ex.calls, fmt.Sprintf("call sub=%d %s", s, descPub(r.topic, r.payload, r.qos, true)))
 			}
